@@ -93,8 +93,7 @@ theorem goodBlock_reverse (es : List Entry) (h : GoodBlock es) : GoodBlock es.re
 /-- the open session's own state -/
 structure SessOK (cfg : Cfg) (bs : Nat) (name : Bytes) (s : Sess) : Prop where
   hv : s.hdr.Valid
-  h3 : s.hdr.version = 3
-  hn : s.hdr.nameLength = name.length
+  nm : NameOk s.hdr name
   bc : s.blockCount < 2 ^ 64
   ec : s.entryCount < 2 ^ 64
   enc : ∀ e ∈ s.bufRev, EntryOK e
@@ -105,8 +104,7 @@ structure SessOK (cfg : Cfg) (bs : Nat) (name : Bytes) (s : Sess) : Prop where
 /-- the on-disk shape -/
 structure FileOK (codec : Codec) (crc : Checksum) (name : Bytes) (file : Bytes)
     (blocks : List (List Entry)) : Prop where
-  shape : ∃ hdr : FileHeader, file = render codec crc hdr name blocks ∧ hdr.Valid ∧ hdr.version = 3 ∧
-    hdr.nameLength = name.length
+  shape : ∃ hdr : FileHeader, file = render codec crc hdr name blocks ∧ hdr.Valid ∧ NameOk hdr name
   good : ∀ b ∈ blocks, GoodBlock b
 
 theorem rewriteHeader_render (codec : Codec) (crc : Checksum) (h h' : FileHeader) (name : Bytes)
@@ -119,6 +117,9 @@ theorem render_append_block (codec : Codec) (crc : Checksum) (h : FileHeader) (n
     (blocks : List (List Entry)) (b : List Entry) :
     render codec crc h name blocks ++ encodeBlock codec crc b = render codec crc h name (blocks ++ [b]) := by
   simp [render, renderBlocks]
+
+theorem nameOk_setCounts (h : FileHeader) (name : Bytes) (hn : NameOk h name) (bc ec : Nat) :
+    NameOk ({ h with blockCount := bc, entryCount := ec } : FileHeader) name := hn
 
 theorem valid_setCounts (h : FileHeader) (hv : h.Valid) (bc ec : Nat) (hbc : bc < 2 ^ 64) (hec : ec < 2 ^ 64) :
     ({ h with blockCount := bc, entryCount := ec } : FileHeader).Valid :=
@@ -139,18 +140,18 @@ theorem flushSess_ok (cfg : Cfg) (codec : Codec) (crc : Checksum) (bs : Nat) (hP
     refine ⟨blocks, hF, hS, ?_, ?_⟩ <;> simp [hbuf]
   | cons e t =>
     simp only [List.isEmpty_cons, Bool.false_eq_true, if_false]
-    obtain ⟨⟨hdr, hfile, _, _, _⟩, hgood⟩ := hF
+    obtain ⟨⟨hdr, hfile, _, _⟩, hgood⟩ := hF
     have hgb : GoodBlock (e :: t).reverse := by
       rw [← hbuf]; exact goodBlock_reverse _ (goodBlock_of_bound cfg bs hP s.bufRev hS.below hS.enc)
     have hbc : (s.blockCount + 1) % 2 ^ 64 < 2 ^ 64 := Nat.mod_lt _ (by decide)
     have hec : (s.entryCount + (e :: t).length % 2 ^ 16) % 2 ^ 64 < 2 ^ 64 := Nat.mod_lt _ (by decide)
-    refine ⟨blocks ++ [(e :: t).reverse], ⟨⟨_, ?_, valid_setCounts s.hdr hS.hv _ _ hbc hec, hS.h3, hS.hn⟩, ?_⟩, ?_, by simp, by simp⟩
+    refine ⟨blocks ++ [(e :: t).reverse], ⟨⟨_, ?_, valid_setCounts s.hdr hS.hv _ _ hbc hec, hS.nm⟩, ?_⟩, ?_, by simp, by simp⟩
     · rw [hfile, render_append_block, rewriteHeader_render]
     · intro b hb
       rcases List.mem_append.mp hb with h | h
       · exact hgood b h
       · simp only [List.mem_singleton] at h; subst h; exact hgb
-    · exact ⟨valid_setCounts s.hdr hS.hv _ _ hbc hec, hS.h3, hS.hn, hbc, hec, by simp, by simp [sizeSum], by simp,
+    · exact ⟨valid_setCounts s.hdr hS.hv _ _ hbc hec, hS.nm, hbc, hec, by simp, by simp [sizeSum], by simp,
         bufBound_nil cfg bs⟩
 
 /-- the extra header rewrite of `Sync`/`Close` changes nothing but the header -/
@@ -166,24 +167,24 @@ theorem finishSess_ok (cfg : Cfg) (codec : Codec) (crc : Checksum) (bs : Nat) (h
   generalize flushSess codec crc file s = r at hF' hS' hb'
   obtain ⟨f1, s1⟩ := r
   simp only at hF' hS' hb' ⊢
-  obtain ⟨⟨hdr, hfile, _, _, _⟩, hgood⟩ := hF'
+  obtain ⟨⟨hdr, hfile, _, _⟩, hgood⟩ := hF'
   have hv' := valid_setCounts s1.hdr hS'.hv s1.blockCount s1.entryCount hS'.bc hS'.ec
-  refine ⟨blocks', ⟨⟨_, ?_, hv', hS'.h3, hS'.hn⟩, hgood⟩, ?_, hb', hfl⟩
+  refine ⟨blocks', ⟨⟨_, ?_, hv', hS'.nm⟩, hgood⟩, ?_, hb', hfl⟩
   · rw [hfile, rewriteHeader_render]
-  · exact ⟨hv', hS'.h3, hS'.hn, hS'.bc, hS'.ec, hS'.enc, hS'.size, hS'.cnt, hS'.below⟩
+  · exact ⟨hv', hS'.nm, hS'.bc, hS'.ec, hS'.enc, hS'.size, hS'.cnt, hS'.below⟩
 
 /-- `openExistingFile` on a file the writer left behind -/
 theorem openExisting_ok (cfg : Cfg) (codec : Codec) (crc : Checksum) (bs : Nat) (name file : Bytes)
     (blocks : List (List Entry)) (hF : FileOK codec crc name file blocks) :
     ∃ s, openExisting file = some s ∧ SessOK cfg bs name s ∧ s.bufRev = [] := by
-  obtain ⟨⟨hdr, hfile, hv, h3, hn⟩, _⟩ := hF
+  obtain ⟨⟨hdr, hfile, hv, hn⟩, _⟩ := hF
   have hl := encodeFileHeader_length hdr
   refine ⟨⟨hdr, [], 0, 0, hdr.blockCount, hdr.entryCount⟩, ?_, ?_, rfl⟩
   · unfold openExisting
     rw [hfile]
     unfold render
     rw [if_neg (by simp [hl]), take_append_len _ _ 64 hl, decodeFileHeader_encode hdr hv]
-  · exact ⟨hv, h3, hn, hv.blockCount, hv.entryCount, by simp, by simp [sizeSum], by simp, bufBound_nil cfg bs⟩
+  · exact ⟨hv, hn, hv.blockCount, hv.entryCount, by simp, by simp [sizeSum], by simp, bufBound_nil cfg bs⟩
 
 /-- The invariant that ties the disk, the buffer and the acknowledged writes together. -/
 structure Inv (cfg : Cfg) (codec : Codec) (crc : Checksum) (bs : Nat) (name : Bytes)
@@ -251,13 +252,13 @@ theorem step_inv (cfg : Cfg) (codec : Codec) (crc : Checksum) (bs : Nat) (hP : P
             -- flush of the extended buffer: one new block
             have hgb : GoodBlock (e :: s.bufRev).reverse :=
               goodBlock_reverse _ (goodBlock_cons cfg bs hP s.bufRev e hS.below hS.enc hok)
-            obtain ⟨⟨hdr, hfile, _, _, _⟩, hgood⟩ := hF
+            obtain ⟨⟨hdr, hfile, _, _⟩, hgood⟩ := hF
             simp only at hfile
             have hbc : (s.blockCount + 1) % 2 ^ 64 < 2 ^ 64 := Nat.mod_lt _ (by decide)
             have hec : (s.entryCount + (e :: s.bufRev).length % 2 ^ 16) % 2 ^ 64 < 2 ^ 64 := Nat.mod_lt _ (by decide)
             have hne : (e :: s.bufRev).isEmpty = false := by simp
             simp only [flushSess, hne, Bool.false_eq_true, if_false]
-            refine ⟨⟨blocks ++ [(e :: s.bufRev).reverse], ⟨⟨_, ?_, valid_setCounts s.hdr hS.hv _ _ hbc hec, hS.h3, hS.hn⟩, ?_⟩, ?_⟩, ?_, rfl⟩
+            refine ⟨⟨blocks ++ [(e :: s.bufRev).reverse], ⟨⟨_, ?_, valid_setCounts s.hdr hS.hv _ _ hbc hec, hS.nm⟩, ?_⟩, ?_⟩, ?_, rfl⟩
             · show rewriteHeader (file ++ _) _ = _
               rw [hfile, render_append_block, rewriteHeader_render]
             · intro b hb
@@ -270,7 +271,7 @@ theorem step_inv (cfg : Cfg) (codec : Codec) (crc : Checksum) (bs : Nat) (hP : P
             · intro s' h'
               simp at h'
               subst h'
-              exact ⟨valid_setCounts s.hdr hS.hv _ _ (Nat.mod_lt _ (by decide)) (Nat.mod_lt _ (by decide)), hS.h3, hS.hn,
+              exact ⟨valid_setCounts s.hdr hS.hv _ _ (Nat.mod_lt _ (by decide)) (Nat.mod_lt _ (by decide)), hS.nm,
                 Nat.mod_lt _ (by decide), Nat.mod_lt _ (by decide), by simp, by simp [sizeSum], by simp, bufBound_nil cfg bs⟩
           · simp only [Bool.not_eq_true] at hfl
             simp only [hfl, Bool.false_eq_true, if_false]
@@ -279,7 +280,7 @@ theorem step_inv (cfg : Cfg) (codec : Codec) (crc : Checksum) (bs : Nat) (hP : P
             · intro s' h'
               simp at h'
               subst h'
-              refine ⟨hS.hv, hS.h3, hS.hn, hS.bc, hS.ec, hS1pre, hsz, hcnt, ?_⟩
+              refine ⟨hS.hv, hS.nm, hS.bc, hS.ec, hS1pre, hsz, hcnt, ?_⟩
               apply bufBound_of_noFlush
               rw [← hsz, ← hcnt]; exact hfl
     | flush =>
@@ -342,12 +343,12 @@ theorem createFile_inv (cfg : Cfg) (codec : Codec) (crc : Checksum) (bs : Nat) (
   have hv : (initHdr name now).Valid :=
     ⟨Or.inr rfl, by simp [initHdr], Nat.mod_lt _ (by decide), Nat.mod_lt _ (by decide), by simp [initHdr],
       by simp [initHdr], by simp [initHdr], Nat.mod_lt _ (by decide), by simp [initHdr], by simp [initHdr]⟩
-  refine ⟨⟨[], ⟨⟨initHdr name now, ?_, hv, rfl, hmod⟩, by simp⟩, by simp [St.pending, createFile]⟩, ?_, rfl⟩
+  refine ⟨⟨[], ⟨⟨initHdr name now, ?_, hv, Or.inl ⟨rfl, hmod⟩⟩, by simp⟩, by simp [St.pending, createFile]⟩, ?_, rfl⟩
   · simp [createFile, render, renderBlocks]
   · intro s hs
     simp [createFile] at hs
     subst hs
-    exact ⟨hv, rfl, hmod, by simp, by simp, by simp, by simp [sizeSum], by simp, bufBound_nil cfg bs⟩
+    exact ⟨hv, Or.inl ⟨rfl, hmod⟩, by simp, by simp, by simp, by simp [sizeSum], by simp, bufBound_nil cfg bs⟩
 
 /-- What is on disk after a history loads to the replay of the acknowledged writes that have
     left the buffer — for every lawful codec, checksum, block size (within `Params`), name,
@@ -358,9 +359,34 @@ theorem loadIndex_runOps (cfg : Cfg) (codec : Codec) (crc : Checksum) (bs : Nat)
       loadIndex cfg codec.toDecoder crc (runOps cfg codec crc bs (createFile name now) ops).file
         = .ok (replay cfg flushed, if name.isEmpty then metaName flushed else name) := by
   have hI := runOps_inv cfg codec crc bs hP name ops _ [] true (createFile_inv cfg codec crc bs name now hn) hW
-  obtain ⟨⟨blocks, ⟨⟨hdr, hfile, hv, h3, hnl⟩, hgood⟩, hacc⟩, _, _⟩ := hI
+  obtain ⟨⟨blocks, ⟨⟨hdr, hfile, hv, hnl⟩, hgood⟩, hacc⟩, _, _⟩ := hI
   refine ⟨blocks.flatten, by simpa using hacc, ?_⟩
   rw [hfile]
-  exact loadIndex_render cfg codec crc hdr name blocks hv h3 hnl hgood
+  exact loadIndex_render cfg codec crc hdr name blocks hv hnl hgood
+
+/-- The same from *any* state that satisfies the invariant (e.g. a legacy V2 file that is reopened
+    and appended to): what loads is the replay of what was on disk plus what was acknowledged and
+    has left the buffer. -/
+theorem loadIndex_runOps_from (cfg : Cfg) (codec : Codec) (crc : Checksum) (bs : Nat) (hP : Params cfg bs)
+    (name : Bytes) (st0 : St) (acc0 : List Entry) (open0 : Bool)
+    (hI0 : Inv cfg codec crc bs name st0 acc0 open0) (ops : List Op) (hW : WritesOK cfg ops) :
+    ∃ flushed, flushed ++ (runOps cfg codec crc bs st0 ops).pending = acc0 ++ accepted cfg open0 ops ∧
+      loadIndex cfg codec.toDecoder crc (runOps cfg codec crc bs st0 ops).file
+        = .ok (replay cfg flushed, if name.isEmpty then metaName flushed else name) := by
+  have hI := runOps_inv cfg codec crc bs hP name ops st0 acc0 open0 hI0 hW
+  obtain ⟨⟨blocks, ⟨⟨hdr, hfile, hv, hnl⟩, hgood⟩, hacc⟩, _, _⟩ := hI
+  refine ⟨blocks.flatten, hacc, ?_⟩
+  rw [hfile]
+  exact loadIndex_render cfg codec crc hdr name blocks hv hnl hgood
+
+/-- a closed legacy (version 2) file: header, then blocks, no name area -/
+def legacyState (codec : Codec) (crc : Checksum) (hdr : FileHeader) (blocks : List (List Entry)) : St :=
+  ⟨render codec crc hdr [] blocks, none⟩
+
+theorem legacyState_inv (cfg : Cfg) (codec : Codec) (crc : Checksum) (bs : Nat) (hdr : FileHeader)
+    (blocks : List (List Entry)) (hv : hdr.Valid) (h2 : hdr.version = 2) (hg : ∀ b ∈ blocks, GoodBlock b) :
+    Inv cfg codec crc bs [] (legacyState codec crc hdr blocks) blocks.flatten false :=
+  ⟨⟨blocks, ⟨⟨hdr, rfl, hv, Or.inr ⟨h2, rfl⟩⟩, hg⟩, by simp [legacyState, St.pending]⟩,
+   by intro s hs; simp [legacyState] at hs, rfl⟩
 
 end Hv.Storage
